@@ -469,6 +469,21 @@ def run(ctx: core.Run):
         "`touch` observation",
     ]
     ctx.model_coverage = T.MODEL_COVERAGE
+    ctx.trusted_base += [
+        "harness/extract_c14.py (on the abstract interpreter of extract_c15.py): which object an owner expression names "
+        "(textual substitution of self / parameters / aliases), the summary of a loop over <o>.descendants() / <o> / "
+        "<o>._layers[:] whose body only acts on the loop variable as ONE effect with scope descendants / children, the "
+        "classification of _layers mutations into shrink / relist, the recognition of the climb of Layer._invalidate_bbox",
+        "harness/freshtable.py: the tests of a segment and its owner expressions evaluated on the recorded state before the "
+        "call (eval of the normalised source text over read-only proxies)",
+    ]
+    ctx.assumptions += [
+        "kept_fresh: C09's invariants at the start of every covered block and its side conditions on the raw mutations "
+        "(GuardedHist: what leaves a list was a member; what arrives is detached and does not contain the container; no "
+        "repetition; recursion limit not hit; a rectangle is moved on a plain layer), no exception between a raw mutation "
+        "and the invalidations of its block, no cache filled inside a mutator except by the reads the table lists; writes "
+        "that bypass the public mutators (layer._record…, _layers directly) are outside the claim",
+    ]
     rng = ctx.rng
     traces = []
     phase, t_last = {}, [time.time()]
@@ -675,6 +690,19 @@ def run(ctx: core.Run):
 
 
 NOTES = [
+    "proved (Props/C14.lean, table part): invalidate_tied, kept_fresh / kept_wellformed (ANY table with tableOk, any history "
+    "of segment executions: objects named, outcomes of tests and new values of the mutated inputs adversarial), "
+    "current_tree_kept_fresh (tableOk of the regenerated Generated/FreshTable.lean by decide), kept_fresh_now, "
+    "answers_fresh_now; necessity: every_invalidation_needed (every row of the current table), "
+    "climb_stopping_at_empty_goes_stale, climb_below_document_goes_stale, children_only_reset_goes_stale (nesting depth "
+    "three), target_side_only_move_goes_stale, conditional_invalidation_rejected, direct_store_rejected, "
+    "read_between_rejected; non-vacuity: nested_good, allRead_good, the GuardedHist example",
+    "the table speaks about the boxes cached on containers (_bbox of groups, artboards and the document) and the dirty "
+    "flag; the clipping relation has its own table (C15, Generated/ClipCurrent.lean); ShapeLayer._bbox, mask / effects "
+    "views and memoised answers outside _bbox are not in it (searched only)",
+    "tableOk is sufficient, not necessary: it accepts the four block shapes the current code uses, in source order; a "
+    "rewrite that invalidates correctly in another order is reported as a broken tie (VIOLATION without failing input "
+    "unless the search finds one) and the shapes have to be extended",
     "proved (Props/C14.lean): fresh_init, fresh_step (every operation; guard of the inserting operations; recursion limit "
     "not hit), fresh_history, answers_fresh_history, observe_pure (SameObs now includes the tagged-block key list of every "
     "record), observe_keeps_blocks, observations_pure (any sequence of read-only calls), getter_writes_nothing, "
